@@ -69,6 +69,14 @@ func genC11(rng *rand.Rand, n int, emit func(Case), dist map[string]int) {
 		e := echo.New()
 		ran := false
 		h := mw(func(c echo.Context) error { ran = true; return c.String(200, "ok") })
+		stacked := !useFunc && rng.Intn(6) == 0
+		if stacked {
+			// a permissive CORS instance on the server (e.Use) in front of this stricter one (on a group): the inner instance
+			// still decides for itself.  Judged for non-preflight requests (the outer one answers preflights by itself).
+			inner := h
+			h = middleware.CORS()(inner)
+			dist["instances_behind_a_permissive_outer_cors"]++
+		}
 		eff := list
 		if len(eff) == 0 {
 			eff = []string{"*"}
@@ -138,6 +146,9 @@ func genC11(rng *rand.Rand, n int, emit func(Case), dist map[string]int) {
 				eff = list
 			}
 			method := []string{http.MethodGet, http.MethodPost, http.MethodOptions, http.MethodOptions}[rng.Intn(4)]
+			if stacked && method == http.MethodOptions {
+				method = http.MethodGet
+			}
 			req := httptest.NewRequest(method, "/", nil)
 			if origin != "" || rng.Intn(2) == 0 {
 				req.Header.Set(echo.HeaderOrigin, origin)
@@ -162,6 +173,10 @@ func genC11(rng *rand.Rand, n int, emit func(Case), dist map[string]int) {
 				acao = acaoVals[0]
 			}
 			acac := len(rec.Header()[echo.HeaderAccessControlAllowCredentials]) > 0
+			if stacked && !ran && status == http.StatusUnauthorized {
+				// the inner instance refused: the Allow-Origin on the response is the OUTER instance's, not its decision
+				acao, hasACAO = "", false
+			}
 			preflight := method == http.MethodOptions
 			// ---- the property, evaluated on the implementation's response alone
 			ok, why := true, ""
